@@ -917,7 +917,12 @@ func (c *Client) q(m *spb.ModifyRequest) {
 
 	if !exited {
 		verifPoint("client.q.beforeSend")
-		c.qs.modifyCh <- m
+		// The sender can exit whilst we are waiting for space in the channel, in
+		// which case nothing will ever read from it again.
+		select {
+		case c.qs.modifyCh <- m:
+		case <-c.sendExitCh:
+		}
 	}
 }
 
